@@ -12,7 +12,7 @@ use std::collections::BTreeMap;
 pub fn def() -> PropDef {
     PropDef {
         id: "C10",
-        rule: "generated argument tuples of encode and decode: counts from small values and the extreme pools, a valid sufficient base input with 0..2 injected faults (index replaced by duplicate / count+d / huge value, length replaced, shards dropped or added, recovery removed). oracle: the documented streaming sequence is executed (ReedSolomonEncoder::new(k,r,len(first)) + adds in order + encode; ReedSolomonDecoder sized from the first recovery shard + adds + decode): streaming Ok => one-shot Ok with identical Vec / map; streaming Err => one-shot Err with an error that is truthful for the input (model of C06; order of checks is free); without recovery shards: never Ok unless all indexes are in range and unique, all lengths equal, even, non-zero and all k originals present. non-trivial: faulty input without recovery shards, or >=2 faults, or success with originals and recovery mixed; distinct by full case",
+        rule: "generated argument tuples of encode and decode: counts from small values and the extreme pools, a valid sufficient base input with 0..2 injected faults (index replaced by duplicate / count+d / huge value, length replaced, shards dropped or added, recovery removed). every call through one of three iterator kinds (slice; filter over a longer container, i.e. loose size_hint; from_fn, i.e. no size_hint). oracle: the documented streaming sequence is executed (ReedSolomonEncoder::new(k,r,len(first)) + adds in order + encode; ReedSolomonDecoder sized from the first recovery shard + adds + decode): streaming Ok => one-shot Ok with identical Vec / map; streaming Err => one-shot Err with an error that is truthful for the input (model of C06; order of checks is free); without recovery shards: never Ok unless all indexes are in range and unique, all lengths equal, even, non-zero and all k originals present. non-trivial: faulty input without recovery shards, or >=2 faults, or success with originals and recovery mixed; distinct by full case",
         assumptions: &["shard contents are arbitrary bytes: equality with the streaming API does not need consistent shards"],
         parts,
     }
@@ -59,7 +59,24 @@ pub fn check(c: &OneShot, st: &mut Stats) -> CheckResult {
             let shards: Vec<Vec<u8>> = lens.iter().enumerate().map(|(i, &l)| shard(l, hseed ^ i as u64)).collect();
             let truth = truth_oneshot_encode(*k, *r, &lens);
             let what = format!("encode({k}, {r}, shards of lengths {lens:?})");
-            let one = no_panic(|| reed_solomon_simd::encode(*k, *r, &shards)).map_err(|p| format!("{what} {p}"))?;
+            // the iterator kind is part of the input: exact slice / filtered longer container (loose upper
+            // bound) / from_fn (no bounds at all)
+            let one = no_panic(|| match hseed % 3 {
+                0 => reed_solomon_simd::encode(*k, *r, &shards),
+                1 => {
+                    let padded: Vec<(bool, &Vec<u8>)> = shards.iter().flat_map(|s| [(true, s), (false, s)]).collect();
+                    reed_solomon_simd::encode(*k, *r, padded.iter().filter(|x| x.0).map(|x| x.1))
+                }
+                _ => {
+                    let mut i = 0;
+                    reed_solomon_simd::encode(*k, *r, std::iter::from_fn(|| {
+                        i += 1;
+                        shards.get(i - 1)
+                    }))
+                }
+            })
+            .map_err(|p| format!("{what} {p}"))?;
+            st.classf("iterator", ["slice", "filtered", "from_fn"][(hseed % 3) as usize]);
             if shards.is_empty() {
                 judge(&what, &one, &truth)?;
             } else {
@@ -83,7 +100,31 @@ pub fn check(c: &OneShot, st: &mut Stats) -> CheckResult {
             let rs: Vec<(usize, Vec<u8>)> = rv.iter().enumerate().map(|(j, &(i, l))| (i, shard(l, hseed ^ 0x8000 ^ j as u64))).collect();
             let truth = truth_oneshot_decode(*k, *r, &o, &rv);
             let what = format!("decode({k}, {r}, originals (index,len) {o:?}, recovery (index,len) {rv:?})");
-            let one = no_panic(|| reed_solomon_simd::decode(*k, *r, os.iter().map(|(i, s)| (*i, s)), rs.iter().map(|(i, s)| (*i, s)))).map_err(|p| format!("{what} {p}"))?;
+            let one = no_panic(|| match hseed % 3 {
+                0 => reed_solomon_simd::decode(*k, *r, os.iter().map(|(i, s)| (*i, s)), rs.iter().map(|(i, s)| (*i, s))),
+                1 => {
+                    let po: Vec<(bool, usize, &Vec<u8>)> = os.iter().flat_map(|(i, s)| [(false, *i, s), (true, *i, s)]).collect();
+                    let pr: Vec<(bool, usize, &Vec<u8>)> = rs.iter().flat_map(|(i, s)| [(true, *i, s), (false, *i, s), (false, 0, s)]).collect();
+                    reed_solomon_simd::decode(*k, *r, po.iter().filter(|x| x.0).map(|x| (x.1, x.2)), pr.iter().filter(|x| x.0).map(|x| (x.1, x.2)))
+                }
+                _ => {
+                    let (mut i, mut j) = (0, 0);
+                    reed_solomon_simd::decode(
+                        *k,
+                        *r,
+                        std::iter::from_fn(|| {
+                            i += 1;
+                            os.get(i - 1).map(|(x, s)| (*x, s))
+                        }),
+                        std::iter::from_fn(|| {
+                            j += 1;
+                            rs.get(j - 1).map(|(x, s)| (*x, s))
+                        }),
+                    )
+                }
+            })
+            .map_err(|p| format!("{what} {p}"))?;
+            st.classf("iterator", ["slice", "filtered", "from_fn"][(hseed % 3) as usize]);
             let one: Result<BTreeMap<usize, Vec<u8>>, Error> = one.map(|m| m.into_iter().collect());
             if rs.is_empty() {
                 // no inferred size is documented: the property's own list decides
